@@ -293,3 +293,21 @@ def register_fresh_actor(router, name, seen, keep, fail_until, via_retry):
     body.__name__ = name
     router.actor(name=name)(body)
     return kept
+
+
+# ---------------------------------------- C18: payload keys named like dependency parameters never replace the provider
+def register_shadow_actors(router, seen, with_kwargs=True):
+    async def token():
+        return ("provided", ())
+
+    async def shadowed(a: int, x0: Annotated[Any, Depends(token)], m: MessageDependency, **extra):
+        seen.append({"id": m.key.id_ if isinstance(m, MessageDependency) else None, "a": a, "x0": x0, "m_is_handle": isinstance(m, MessageDependency), "extra": dict(extra)})
+        return 1
+
+    async def shadowed_plain(a: int, x0: Annotated[Any, Depends(token)], m: MessageDependency, b: int = 2):
+        seen.append({"id": m.key.id_ if isinstance(m, MessageDependency) else None, "a": a, "x0": x0, "m_is_handle": isinstance(m, MessageDependency), "extra": {}})
+        return 1
+
+    if with_kwargs:
+        router.actor(name="shadowed")(shadowed)
+    router.actor(name="shadowed_plain")(shadowed_plain)
